@@ -19,13 +19,14 @@ structure Closed (e : Env) (P : St → Prop) (T : Nat → Prop := fun _ => True)
   release : ∀ (σ : St) r i t a, T t → Inv e σ → (e.taskD t).leaf = true → 0 ≤ a → P σ →
     P { σ with led := σ.led.set r i ((σ.led.get r i).release t a) }
   /-- a booking, made only behind the gate -/
-  book : ∀ σ r i t, T t → Inv e σ → (e.taskD t).leaf = true → 0 ≤ i → available e σ r i = true → taskLimitsOk e σ t i r = true →
-    P σ → P (bookSlot e σ r i t).1
+  book : ∀ σ r i t, T t → Inv e σ → (e.taskD t).leaf = true → 0 ≤ i → i ≤ e.upper → available e σ r i = true →
+    taskLimitsOk e σ t i r = true → P σ → P (bookSlot e σ r i t).1
 
 /-- the cursor is inside the scoreboard and the start offset leaves room in its slot -/
 structure WalkIn (e : Env) (w : Walk) : Prop where
   cur_nonneg : 0 ≤ w.cur
   off_room : w.offset ≤ (e.G : Rat) - 1 / 1000000
+  cur_le : w.cur ≤ e.upper
 
 theorem availSecs_pos_iff (G : Int) (s : Slot) : availSecs G s > 0 ↔ s.used ≤ (G : Rat) - 1 / 1000000 := by
   unfold availSecs
@@ -149,7 +150,7 @@ theorem closed_bookResource (hc : Closed e P T) (wf : WF e) (σ : St) (t : Nat) 
   split
   · rename_i hcond
     simp only [Bool.and_eq_true] at hcond
-    exact hc.book _ r w.cur t hT h1 hlf hin.cur_nonneg hcond.1 hcond.2 p1
+    exact hc.book _ r w.cur t hT h1 hlf hin.cur_nonneg hin.cur_le hcond.1 hcond.2 p1
   · exact p1
 
 theorem closed_bookOne (hc : Closed e P T) (wf : WF e) (t : Nat) (w : Walk) (a : BookAcc) (r : Nat) (hi : Inv e a.σ)
@@ -174,7 +175,7 @@ theorem closed_bookResources (hc : Closed e P T) (wf : WF e) (σ : St) (t : Nat)
     (hlf : (e.taskD t).leaf = true) (hT : T t) (hw : WalkOk e t w) (hin : WalkIn e w) (h : P σ) : P (bookResources e σ t w).1 := by
   unfold bookResources
   have hw' : WalkOk e t { w with selected := some (selectedOf e σ t w) } := ⟨hw.off_nonneg, hw.off_le, hw.done_le⟩
-  have hin' : WalkIn e { w with selected := some (selectedOf e σ t w) } := ⟨hin.cur_nonneg, hin.off_room⟩
+  have hin' : WalkIn e { w with selected := some (selectedOf e σ t w) } := ⟨hin.cur_nonneg, hin.off_room, hin.cur_le⟩
   split
   · exact h
   · simp only []
@@ -280,13 +281,15 @@ theorem closed_walkLoop (hc : Closed e P T) (wf : WF e) (t : Nat) (fwd : Bool) (
       split
       · exact ps
       · rename_i hbounds
-        refine ih _ _ hs.1 (walkOk_advance e t wf _ _ _ hw1) ⟨?_, ?_⟩ ps
+        refine ih _ _ hs.1 (walkOk_advance e t wf _ _ _ hw1) ⟨?_, ?_, ?_⟩ ps
         · simp only [Bool.or_eq_true, decide_eq_true_eq, not_or, Int.not_lt] at hbounds
           exact hbounds.1
         · show (0 : Rat) ≤ (e.G : Rat) - 1 / 1000000
           have : (1 : Int) ≤ e.G := wf.G_pos
           have : (1 : Rat) ≤ (e.G : Rat) := by exact_mod_cast this
           grind
+        · simp only [Bool.or_eq_true, decide_eq_true_eq, not_or, Int.not_lt] at hbounds
+          exact hbounds.2
 
 theorem closed_scheduleTask (hc : Closed e P T) (wf : WF e) (σ : St) (t : Nat) (hi : Inv e σ)
     (hlf : (e.taskD t).leaf = true) (hT : T t) (h : P σ) : P (scheduleTask e σ t).1 := by
@@ -303,9 +306,8 @@ theorem closed_scheduleTask (hc : Closed e P T) (wf : WF e) (σ : St) (t : Nat) 
         ⟨hoff.1, hoff.2, wf.effort_nonneg t⟩
       rename_i hbounds
       have hin : WalkIn e { cur := preStartCursor e σ t (initCursor e σ t).1, offset := (initCursor e σ t).2 } := by
-        refine ⟨?_, initCursor_room e σ t wf⟩
         simp only [Bool.or_eq_true, decide_eq_true_eq, not_or, Int.not_lt] at hbounds
-        exact hbounds.1
+        exact ⟨hbounds.1, initCursor_room e σ t wf, hbounds.2⟩
       have := closed_walkLoop hc wf t (σ.tst t).forward (e.size.toNat + 3) _ _ h0 hlf hT hw hin p0
       split
       · exact hc.setT _ _ _ this
